@@ -156,6 +156,9 @@ func _yieldUnmarshalMachinePtrForAtlasEntry(row *unmarshalSlabRow, entry *atlas.
 	case entry.UnionKeyedMorphism != nil:
 		row.unmarshalMachineUnionKeyed.cfg = entry.UnionKeyedMorphism
 		return &row.unmarshalMachineUnionKeyed
+	case entry.MapMorphism != nil:
+		// Key ordering only matters when marshalling; unmarshal like any other map.
+		return &row.unmarshalMachineMapStringWildcard
 	default:
 		panic("invalid atlas entry")
 	}
